@@ -24,7 +24,7 @@ func DerivePublic(priv []byte) (x, y []byte, err error) {
 	}
 
 	var pubBytes []byte
-	pubBytes = pub.Bytes_Unsafe()
+	pubBytes = pub.Bytes() // [d]G is computed from the private key: its Z coordinate must be inverted in constant time
 	if len(pubBytes) != 65 {
 		// [priv]G is the point at infinity (priv is a multiple of n): no affine coordinates
 		return nil, nil, errors.New("invalid private key: public key is the point at infinity")
@@ -71,7 +71,7 @@ func GenerateKey(rand io.Reader) (priv, x, y []byte, err error) {
 	}
 
 	var pubBytes []byte
-	pubBytes = pub.Bytes_Unsafe()
+	pubBytes = pub.Bytes() // [d]G is computed from the private key: its Z coordinate must be inverted in constant time
 
 	return priv, pubBytes[1:33], pubBytes[33:], nil
 }
